@@ -115,6 +115,7 @@ type whWorld struct {
 	ep   map[string]*whEndpoint
 	urls []string
 	ws   []string
+	sent map[string]*pb.SignedHash // accepted requests as sent, by wallet|url (replayed byte for byte later)
 }
 
 func newWhWorld(b *whBehaviour) (*whWorld, error) {
@@ -217,7 +218,23 @@ func (w *whWorld) step(op whOp, enc *json.Encoder) error {
 		if panicked != "" {
 			res = "panic: " + panicked
 		}
+		if res == "ok" && req != nil {
+			if w.sent == nil {
+				w.sent = map[string]*pb.SignedHash{}
+			}
+			w.sent[op.W+"|"+op.U] = req
+		}
 		ev = map[string]any{"a": "Sub", "w": op.W, "u": op.U, "by": op.By, "shape": op.Shape, "res": res}
+	case "replay":
+		req := w.sent[op.W+"|"+op.U]
+		if req == nil {
+			return nil // nothing of that kind was ever sent: nothing to replay
+		}
+		res := "ok"
+		if _, err := w.api.Webhooks(context.Background(), req); err != nil {
+			res = "error"
+		}
+		ev = map[string]any{"a": "Replay", "w": op.W, "u": op.U, "res": res}
 	case "remove":
 		_ = w.svc.RemoveWebhook(webhooks.TriggerNewTransaction, w.wl[op.W].Address(), webhooks.Hook{})
 		ev = map[string]any{"a": "Remove", "w": op.W}
